@@ -35,9 +35,12 @@ let nth1 l k = Stdlib.List.nth l (k - 1)
 let merge l1 h1 l2 h2 =
   let fuel = nat_of_int (Stdlib.List.length l1 + Stdlib.List.length l2 + 3) in
   let h = PoolLinks.heap_of_lists l1 l2 in
-  match PoolLinks.merge_from fuel h h1 h2 with
-  | None -> "Fuel"
-  | Some ((h', hd1), hd2) -> show_list h' hd1 fuel ^ " / " ^ show_list h' hd2 fuel
+  (* the GENERATED list surgery of MergeFrom (Gen_MemPoolMerge; = PoolLinks.merge_from by C09_generated_mergefrom_is_model) *)
+  match Gen_MemPoolMerge.coq_MergeFrom fuel h1 h2 h.PoolLinks.hnext h.PoolLinks.hprev with
+  | Ok ((((_, hd1), hd2), nx'), pv') ->
+    let h' = { PoolLinks.hprev = pv'; PoolLinks.hnext = nx' } in
+    show_list h' hd1 fuel ^ " / " ^ show_list h' hd2 fuel
+  | Fuel -> "Fuel" | Stuck -> "Stuck" | Exn -> "Exn"
 
 (* ---- tr: the concrete model PoolConc run on the same op script as the real pool; same trace format as harness.cpp ---- *)
 let fnv1a (t : string) : int =
@@ -53,6 +56,34 @@ let state_of (w : PoolConc.cworld) (p : bool) : string =
   " K:" ^ blks x.PoolConc.cache ^ " n=" ^ sz x.PoolConc.acount
 let blk_eq (a, b) (c, d) = int_of_z a = int_of_z c && int_of_z b = int_of_z d
 let rec remove_nth k = function [] -> [] | x :: t -> if k = 0 then t else x :: remove_nth (k - 1) t
+(* the GENERATED pvNewBlock (Gen_MemPoolBlk, address-keyed maps) against the hand model PoolConc.pvNewBlock on the current world:
+   buffer id k lives at address k * 2^24, block (k, j) at the generated pvGetBlock(address, j); the cells of the buffer a request would
+   create are pre-initialised as PoolConc.new_buffer initialises them.  Compared: returned block, new head, BufferBytes of the buffer
+   the block was taken from, and "a refused request returns None exactly when the model asks the manager". *)
+let gen_newblock_agrees c b al (w : PoolConc.cworld) p : bool =
+  let scale = zs "16777216" in
+  let adr id = BinInt.Z.mul id scale in
+  let ida a = BinInt.Z.div a scale in
+  let (watt, nbid) = PoolConc.new_buffer c w in
+  let lf = (PoolConc.getp w p).PoolConc.lfree in
+  let rec succ id = function a :: ((n :: _) as t) -> if int_of_z a = int_of_z id then n else succ id t | _ -> zi 0 in
+  let bbf a = watt.PoolConc.fb (ida a) and bbc a = watt.PoolConc.fc (ida a) in
+  let nextb a = adr (succ (ida a) lf) in
+  let nfi a = let k = ida a in let j = BinInt.Z.div (sub (sub a (adr k)) al) b in watt.PoolConc.nx k j in
+  let run fails = Gen_MemPoolBlk.pvNewBlock (adr nbid) b al (adr (PoolConc.hd0 lf)) bbf bbc nextb (fun _ -> zi 0) nfi fails in
+  let (w2, (rb, ri)) = PoolConc.pvNewBlock c w p in
+  let requested = int_of_z w2.PoolConc.fresh > int_of_z w.PoolConc.fresh in
+  let eqz x y = BinInt.Z.eqb x y in
+  (match run false with
+   | Ok (((((Some blk, h'), bf'), bc'), _), _) ->
+     eqz blk (Gen_MemPool.pvGetBlock b al (adr rb) ri) && eqz h' (adr (PoolConc.hd0 (PoolConc.getp w2 p).PoolConc.lfree))
+     && eqz (bf' (adr rb)) (w2.PoolConc.fb rb) && eqz (bc' (adr rb)) (w2.PoolConc.fc rb)
+   | _ -> false)
+  && (match run true with
+      | Ok (((((None, _), _), _), _), _) -> requested
+      | Ok (((((Some _, _), _), _), _), _) -> not requested
+      | _ -> false)
+
 let trace bc cf bs al res ops =
   if int_of_string bc = 1 then "n/a" else begin
     let c = zs bc and cfz = zs cf in
@@ -72,6 +103,7 @@ let trace bc cf bs al res ops =
       let pi = if String.length op > 1 then Char.code op.[1] - 48 else 0 in let p = (pi = 1) in
       (match op.[0] with
        | 'a' ->
+         let gen_ok = gen_newblock_agrees c b (zs al) !w p in
          let (w', bk) = PoolConc.coq_Allocate c uc !w p in
          (* a manager request happens iff a buffer was created (exactly one per Allocate for blockCount >= 2) *)
          let requested = int_of_z (w'.PoolConc.fresh) > int_of_z ((!w).PoolConc.fresh) in
@@ -79,7 +111,8 @@ let trace bc cf bs al res ops =
          if requested && Stdlib.List.mem !attempt fail_at then ret := "!"      (* std::bad_alloc: the pool is left exactly as it was *)
          else begin
            w := w'; ret := sz (fst bk) ^ "." ^ sz (snd bk);
-           live.(pi) <- live.(pi) @ [(bk, !serial)]; incr serial end
+           live.(pi) <- live.(pi) @ [(bk, !serial)]; incr serial end;
+         if not gen_ok then ret := !ret ^ "GEN!"     (* generated pvNewBlock and PoolConc.pvNewBlock disagree on this state *)
        | 'f' ->
          let n = Stdlib.List.length live.(pi) in
          if n > 0 then begin
@@ -246,9 +279,8 @@ let () = iter_lines (fun line ->
   | ["ctor"; bc; bs; al] ->
     let c = zs bc and a = zs al in
     let b = Gen_MemPoolConst.coq_CorrectBlockSize (zs bs) a c in
-    if PoolLayout.check_params c b a then print_endline "ok"
-    else if BinInt.Z.gtb b (BinInt.Z.div (sub (zs "18446744073709551615") (PoolLayout.max_overhead b a)) c) then print_endline "length_error"
-    else print_endline "Stuck"
+    (match Gen_MemPool.pvCheckParams c b a with      (* the GENERATED constructor check: Ok / Exn = std::length_error / Stuck = MOMO_CHECK assertion *)
+     | Ok _ -> print_endline "ok" | Exn -> print_endline "length_error" | Stuck -> print_endline "Stuck" | Fuel -> print_endline "Fuel")
   | "mg" :: rest ->
     let (a, b) = split_at_slash [] rest in
     let (l1, h1) = parse_list a and (l2, h2) = parse_list b in
